@@ -82,7 +82,7 @@ def EXHAUSTIVE(tier):
 
 def plan(tier, seed, avoid):
     if tier == "quick":
-        n = {"c": (10, 30), "cx": (2, 200), "c3": (4, 40), "ir": (4, 40)}
+        n = {"c": (14, 20), "cx": (2, 200), "c3": (4, 40), "ir": (4, 40)}
     else:
         n = {"c": (32, 250), "cx": (8, 2000), "c3": (12, 400), "ir": (12, 400)}
     specs = []
@@ -94,7 +94,7 @@ def plan(tier, seed, avoid):
 def floors(tier):
     big = tier != "quick"
     return {"evaluations": 20000 if big else 700,
-            "observed.inputs.c": 6000 if big else 200, "observed.inputs.cx": 5000 if big else 250,
+            "observed.inputs.c": 6000 if big else 150, "observed.inputs.cx": 5000 if big else 250,
             "observed.inputs.c3": 3000 if big else 100, "observed.inputs.ir": 3000 if big else 100,
             "observed.outcome.c:ok": 100, "observed.outcome.c3:ok": 50, "observed.outcome.ir:ok": 50,
             "observed.outcome.cx:ok": 100, "observed.opt": 4}
